@@ -29,6 +29,8 @@ from vp.core import B
 import slimta.smtp.server as srv_mod
 import slimta.relay.smtp.client as rc_mod
 import slimta.relay.smtp.lmtpclient as lc_mod
+import slimta.relay.pool as pool_mod
+import slimta.smtp.client as smtpclient_mod
 import slimta.relay.pipe as pipe_mod
 import slimta.relay.http as http_mod
 from slimta.smtp import ConnectionLost
@@ -264,7 +266,7 @@ def make_timeout_class(vt):
 
 class patched(object):
     """replace the module-level name `Timeout` of the modules under test"""
-    MODS = (srv_mod, rc_mod, lc_mod)
+    MODS = (srv_mod, rc_mod, lc_mod, pool_mod)
 
     def __init__(self, vt):
         self.vt = vt
@@ -284,8 +286,35 @@ class patched(object):
                 m.Timeout = t
 
 
+VSOCKETS = {}            # fake fd -> VSocket (for the wait_read stand-in below)
+_next_fd = [1000000]
+
+
+def fake_wait_read(fileno, timeout=None, timeout_exc=None):
+    """stand-in for gevent.socket.wait_read as used by Client.has_reply_waiting(fd, 0.01,
+    Timeout()): returns when the fake socket has unread bytes (or EOF), else raises"""
+    s = VSOCKETS.get(fileno)
+    if s is not None and (s.inbox or s.eof):
+        return
+    raise (timeout_exc if timeout_exc is not None else smtpclient_mod.Timeout())
+
+
+class wait_read_patched(object):
+    def __enter__(self):
+        self.old = smtpclient_mod.wait_read
+        smtpclient_mod.wait_read = fake_wait_read
+        return self
+
+    def __exit__(self, *a):
+        smtpclient_mod.wait_read = self.old
+        VSOCKETS.clear()
+
+
 class VSocket(object):
     def __init__(self, vt, on_send=None, block_send_at=None):
+        _next_fd[0] += 1
+        self.fd = _next_fd[0]
+        VSOCKETS[self.fd] = self
         self.vt = vt
         self.inbox = collections.deque()
         self.ev = Event()
@@ -297,7 +326,7 @@ class VSocket(object):
         self.closed = False
 
     def fileno(self):
-        return -1
+        return self.fd
 
     def getpeername(self):
         return ('192.0.2.1', 25)
@@ -341,6 +370,7 @@ class VSocket(object):
 
     def close(self):
         self.closed = True
+        VSOCKETS.pop(self.fd, None)
 
 
 def sec(units):
@@ -591,6 +621,23 @@ def systematic_server_cases():
                 # trickle the next line one byte per 0.9*command timeout, never finishing it
                 tr = [((cfg[0] * 9) // 10, conv[k][i:i + 1]) for i in range(len(conv[k]) - 1)]
                 cases.append(dict(kind='server', cfg=cfg, input=inp + tr, style='trickle-line-%d' % k, mode='bytes'))
+        # the beginning of the next line arrives in the SAME segment as complete command(s):
+        # it is already in recv_buffer when the timer for the next command is armed
+        for k in range(len(conv) - 1):
+            nxt = conv[k + 1]
+            seg = conv[k] + nxt[:max(1, len(nxt) // 2)]
+            cases.append(dict(kind='server', cfg=cfg, input=[(10, c) for c in conv[:k]] + [(10, seg)],
+                              style='stall-sameseg-%d' % k, mode='lines'))
+        cases.append(dict(kind='server', cfg=cfg, input=[(10, b'NOOP\r\nNOO')], style='stall-sameseg-noop', mode='whole'))
+        cases.append(dict(kind='server', cfg=cfg, input=[(10, b'EHLO x\r\nRSET\r\nNOOP\r\nMAIL FROM:<a@exam')],
+                          style='stall-sameseg-pipelined', mode='whole'))
+        cases.append(dict(kind='server', cfg=cfg, input=[(10, c) for c in conv[:4]] + [(10, b'Subject: x\r\n\r\nbody\r\n.\r\nQUI')],
+                          style='stall-sameseg-after-eod', mode='whole'))
+        cases.append(dict(kind='server', cfg=cfg, input=[(10, b''.join(conv[:4]) + b'Subject: x\r\n\r\nbo')],
+                          style='stall-sameseg-into-data', mode='whole'))
+        # ... and the rest of that line trickles afterwards, each byte 0.9*timeout apart
+        cases.append(dict(kind='server', cfg=cfg, input=[(10, b'NOOP\r\nNO')] + [((cfg[0] * 9) // 10, b'O'), ((cfg[0] * 9) // 10, b'P')],
+                          style='trickle-sameseg-noop', mode='whole'))
         # a whole session trickled, every byte 0.9*timeout apart
         alltr = [((cfg[0] * 9) // 10, b''.join(conv)[i:i + 1]) for i in range(len(b''.join(conv)))]
         cases.append(dict(kind='server', cfg=cfg, input=alltr, style='trickle-everything', mode='bytes'))
@@ -896,6 +943,115 @@ def run_client(vt, a, ccfg, ds, mode='silent', watchdog=2.0):
                 vt.events[:] = []
                 vt.run()
         return out
+
+
+def run_client_reuse(vt, a, ccfg, scenario, watchdog=3.0):
+    """two deliveries over ONE connection (idle_timeout set).  Delivery #1 is answered at
+    once; while the client idles in poll() the scenario happens, then delivery #2 is queued.
+      ('unterminated',)  the server writes the beginning of a reply line, no CRLF, and goes silent
+      ('silent-idle',)   the server just goes silent (nothing to read): #2 stalls at MAIL
+      ('stall', j)       delivery #2 is answered until its j-th reply, then silence
+    returns dict(result2, result2_time, enq_time, end_time, stuck, frames, commands)"""
+    idle = 10 * ccfg[1]
+    with patched(vt):
+        peer = Peer(vt, a, [], mode='silent', gap=(ccfg[1] * 9) // 10)
+        queue = BlockingDeque()
+
+        def envelope():
+            e = Envelope('sender@example.com', ['rcpt%d@example.com' % i for i in range(a['nrcpt'])])
+            e.parse(b'From: sender@example.com\r\nSubject: x\r\n\r\ntest test\r\n')
+            return e
+        r1, r2 = AsyncResult(), AsyncResult()
+        queue.append((r1, envelope()))
+        cls = lc_mod.LmtpRelayClient if a['lmtp'] else rc_mod.SmtpRelayClient
+        client = cls(('192.0.2.1', 25), queue, socket_creator=peer.connect, ehlo_as='there',
+                     connect_timeout=sec(ccfg[0]), command_timeout=sec(ccfg[1]), data_timeout=sec(ccfg[2]),
+                     idle_timeout=sec(idle))
+        res = {}
+
+        def after_first(r):
+            res['r1_t'] = vt.now
+
+            def happen():
+                if scenario[0] == 'unterminated':
+                    peer.stalled = True
+                    peer.sock.deliver(b'421 4.4.2 idle timeo')
+                elif scenario[0] == 'silent-idle':
+                    peer.stalled = True
+                elif scenario[0] == 'stall':
+                    peer.ds = [0] * scenario[1] + [None]
+
+            def enqueue():
+                res['enq_t'] = vt.now
+                queue.append((r2, envelope()))
+            vt.after(5, happen)
+            vt.after(10, enqueue)
+        r1.rawlink(after_first)
+        r2.rawlink(lambda r: res.setdefault('r2_t', vt.now))
+        client.link(lambda g: res.setdefault('end_t', vt.now))
+        client.start()
+        if vt.realtime:
+            client.join(watchdog)
+        else:
+            vt.horizon = 60 * max(ccfg) + idle * 3
+            vt.run()
+        stuck = not client.dead
+        out = dict(stuck=stuck, frames=frames_of(client) if stuck else [], first=('ok' if r1.successful() else 'failed' if r1.ready() else None),
+                   result2_time=res.get('r2_t'), enq_time=res.get('enq_t'), end_time=res.get('end_t'),
+                   commands=list(peer.commands), beyond=getattr(vt, 'beyond', False))
+        if r2.ready():
+            exc = r2.exception
+            out['result2'] = ('ok' if exc is None else 'transient' if isinstance(exc, TransientRelayError)
+                              else 'permanent' if isinstance(exc, PermanentRelayError) else 'other:' + type(exc).__name__)
+        else:
+            out['result2'] = None
+        if stuck:
+            client.kill(block=False)
+            if vt.realtime:
+                client.join(0.5)
+            else:
+                vt.horizon = None
+                vt.timers[:] = []
+                vt.events[:] = []
+                vt.run()
+        return out
+
+
+def reuse_cases():
+    cases = []
+    for lmtp in (0, 1):
+        for pipe in (0, 1):
+            a = dict(tls_immediately=0, starttls=0, auth=0, pipelining=pipe, lmtp=lmtp, reject=0, nrcpt=2)
+            n2 = 1 + a['nrcpt'] + 1 + (a['nrcpt'] if lmtp else 1)          # replies of delivery #2
+            scen = [('unterminated',), ('silent-idle',)] + [('stall', j) for j in range(n2)]
+            for sc in scen:
+                cases.append(dict(kind='client-reuse', a=a, ccfg=[50, 100, 300], scenario=list(sc)))
+    return cases
+
+
+def run_reuse_cases(ctx, cases, table):
+    for c in cases:
+        out = run_client_reuse(VT(), c['a'], c['ccfg'], tuple(c['scenario']))
+        ctx.evaluated(('client-reuse', acfg_val(c['a']), c['scenario']), nontrivial=True)
+        ctx.count('client-reuse:%s:%s' % (c['scenario'][0], out['result2']))
+        ccfg = c['ccfg']
+        bad = None
+        if out['first'] != 'ok':
+            bad = 'delivery #1 (everything answered at once) ended %r' % (out['first'],)
+        elif out['result2'] is None:
+            bad = 'delivery #2 on the reused connection never returned'
+        elif out['result2'] != 'transient':
+            bad = 'the server stalled during delivery #2 but it ended with %r, not a transient failure' % (out['result2'],)
+        elif out['result2_time'] > out['enq_time'] + (2 + c['a']['nrcpt'] + 1) * ccfg[1] + ccfg[2]:
+            bad = 'delivery #2 queued at %s returned at %s, later than (#exchanges)*command + data' % (out['enq_time'], out['result2_time'])
+        elif out['stuck']:
+            bad = 'result delivered but the client greenlet stays blocked for ever'
+        if bad:
+            key, where = 'c14:client-bound', ''
+            if out['stuck']:
+                key, where = stuck_key(table, out['frames'])
+            _fail(ctx, key, c, '%s %s (commands seen by the peer: %r)' % (bad, where, out['commands'][-5:]))
+    ctx.sample(dict(kind='client-reuse', case=cases[0], note='second delivery on an idle reused connection'), cap=8)
 
 
 def total_waits(a):
@@ -1230,10 +1386,10 @@ def http_case(ctx, table):
                 key, where = stuck_key(table, frames_of(alive[0]))
                 _fail(ctx, key, case, 'HTTP relay client still blocked %.1fs after start with timeout %.2fs: %s' % (WD, T, where))
             else:
-                ctx.count('http-result:never-completed(D15)')
-                ctx.note('D15 (relay/http.py, being repaired under C11): the HTTP client greenlet ended at its timeout (%.2fs) '
-                         'but never completed the result, so HttpRelay.attempt() is still waiting after %.1fs; '
-                         'reported, not judged here until that fix lands' % (T, WD))
+                ctx.count('http-result:never-completed')
+                _fail(ctx, 'c14:http-result-never-completed', case,
+                      'the HTTP client greenlet ended at its timeout (%.2fs) but never completed the result: '
+                      'HttpRelay.attempt() is still waiting after %.1fs' % (T, WD))
             g.kill(block=False)
         for c in clients:
             c.kill(block=False)
@@ -1284,6 +1440,9 @@ def run(ctx):
         'random conversations from a 24-command vocabulary under byte/line/whole/random chunking with delays around the timeouts, EOF; '
         'client (virtual time): every combination of SMTP/LMTP x PIPELINING x (none|tls_immediately|STARTTLS) x AUTH x accepted/refused recipients x 1-3 recipients, '
         'stall at every awaited step (silent, half a reply, endless trickle), slow-but-in-time and random delays; '
+        'server: half a line in the SAME segment as complete command(s) / a pipelined group / the end-of-data marker, then silence or trickle; '
+        'client on a reused idle connection (idle_timeout set): the server writes an unterminated reply line and goes silent before delivery #2, '
+        'or stalls at every step of delivery #2 (oracle only, not modelled); '
         'site-directed server cases (peer stops reading at the k-th write, TLS handshake stalls, AUTH exchange stalls); '
         'real clock: 11 SMTP/LMTP/server cases, pipe relay with a sleeping script, HTTP relay with a silent stub; '
         'every case counts as non-trivial except server conversations that ended before any command was answered')
@@ -1303,7 +1462,8 @@ def run(ctx):
     old_not_error = hub.NOT_ERROR
     hub.NOT_ERROR = tuple(old_not_error) + (AssertionError,)      # see the note about _disconnect below
     try:
-        _run(ctx, table_broken, use_model)
+        with wait_read_patched():
+            _run(ctx, table_broken, use_model)
     finally:
         hub.NOT_ERROR = old_not_error
 
@@ -1327,6 +1487,7 @@ def _run(ctx, table_broken, use_model):
     run_server_site_cases(ctx, server_site_cases())
     # client
     run_client_cases(ctx, gen_client_cases(ctx, all_acfgs(quick), 4 if quick else 16), table, use_model)
+    run_reuse_cases(ctx, reuse_cases(), table)
     # real clock
     realtime_cases(ctx, table)
     pipe_cases(ctx, table)
@@ -1399,9 +1560,17 @@ def replay(ctx, case):
         if ctx.model and kind == 'server':
             print('model         :', ctx.model.call('c14_server', [[c['cfg'][0]], ([c['cfg'][1]] if c['cfg'][1] is not None else []), [[d, ch] for d, ch in inp]]))
         return 0
+    if kind == 'client-reuse':
+        with wait_read_patched():
+            out = run_client_reuse(VT(), c['a'], c['ccfg'], tuple(c['scenario']))
+        print('implementation:', dict((k, v) for k, v in out.items() if k != 'frames'))
+        if out['stuck']:
+            print('blocked in:', stuck_key(table, out['frames']))
+        return 0
     if kind in ('client', 'realtime-client'):
         vt = RT() if kind == 'realtime-client' else VT()
-        out = run_client(vt, c['a'], c['ccfg'], c['ds'], mode=c.get('mode', 'silent'))
+        with wait_read_patched():
+            out = run_client(vt, c['a'], c['ccfg'], c['ds'], mode=c.get('mode', 'silent'))
         print('implementation: result=%s result_time=%s end_time=%s stuck=%s commands=%r' % (
             out['result'], out['result_time'], out['end_time'], out['stuck'], out['commands']))
         if out['stuck']:
